@@ -568,6 +568,8 @@ type listing struct {
 	Arch     []string `json:"arch"`
 	Sort     string   `json:"sort,omitempty"`
 	Order    string   `json:"order,omitempty"`
+	DirName  string   `json:"dir_name,omitempty"` // Listing.Name and Listing.Path (custom template)
+	DirPath  string   `json:"dir_path,omitempty"`
 	Scripts  int      `json:"scripts,omitempty"`
 	ParseErr string   `json:"parse_err,omitempty"`
 }
@@ -642,6 +644,12 @@ func parseCustom(b []byte) *listing {
 		return bad("first line: " + err.Error())
 	}
 	l.Sort, l.Order, l.Up = so, oo, up == "true"
+	if _, err := fmt.Sscanf(lines[1], "NAME %q", &l.DirName); err != nil {
+		return bad("NAME line: " + err.Error())
+	}
+	if _, err := fmt.Sscanf(lines[2], "PATH %q", &l.DirPath); err != nil {
+		return bad("PATH line: " + err.Error())
+	}
 	if !strings.HasPrefix(lines[3], "ARCH") {
 		return bad("no ARCH line")
 	}
@@ -1078,6 +1086,13 @@ func (f *fixture) judge(ents []string, rc *reqCase, w wire, r *hx.RawResp) verdi
 		add("rendering", "the answer is the %s rendering, expected %s", l.Fmt, e.Fmt)
 		return v
 	}
+	if l.Fmt == "custom" {
+		// Listing.Name: "the name of the directory (the last element of the path)"; Listing.Path: "the full path of the request"
+		p := strings.SplitN(w.target, "?", 2)[0]
+		if l.DirPath != p || l.DirName != filepath.Base(p) {
+			add("listing-name", ".Name %q .Path %q for the request path %q", l.DirName, l.DirPath, p)
+		}
+	}
 	if e.Opaque { // a directory whose content the model does not know: parent link only
 		if l.HasMeta && l.Up != e.Up {
 			add("up-link", "parent link shown: %v, expected %v", l.Up, e.Up)
@@ -1202,6 +1217,19 @@ func fkey(pe *poolEnt, site, outcome string) string {
 func (f *fixture) follow(c *client, ents []string, site string, w wire, l *listing, seq []string) []problem {
 	var ps []problem
 	dirTarget := strings.SplitN(w.target, "?", 2)[0]
+	if l.HasMeta && l.Up {
+		// the parent link of the default template is href=".."; where it is offered it must lead to a listing
+		if u, err := resolveItem(dirTarget, ".."); err == nil {
+			r, err := c.do(site, wire{method: "GET", target: u.EscapedPath(), hdr: []string{"Accept: application/json"}})
+			if err != nil || !looksLikeListing(r) {
+				st := 0
+				if r != nil {
+					st = r.Status
+				}
+				ps = append(ps, problem{clause: "up-link", what: fmt.Sprintf("the parent link is offered but GET %s is answered %d, not with a listing", u.EscapedPath(), st)})
+			}
+		}
+	}
 	for k := range l.Items {
 		if k >= len(seq) {
 			break
@@ -1358,7 +1386,14 @@ func (r *runner) runDir(c *client, bc *bcase, rnd *rand.Rand) {
 		}
 		r.res.Count(nt)
 		r.record(bc.Ents, rc, v, false)
-		if len(v.probs) > 0 || v.lst == nil || rc.Exp.Opaque || w.method != "GET" {
+		if len(v.probs) > 0 || v.lst == nil || w.method != "GET" {
+			continue
+		}
+		if rc.Exp.Opaque { // a fixed directory: only the parent link can be followed
+			if v.lst.Up {
+				r.res.Count("")
+				r.record(bc.Ents, rc, verdict{probs: f.follow(c, bc.Ents, rc.Rq.Site, w, v.lst, nil), kind: "follow-up"}, true)
+			}
 			continue
 		}
 		// the other rendering of the same request: same items, same order (up to ties), HEAD = GET
@@ -1582,7 +1617,7 @@ func TestCx02Browse(t *testing.T) {
 		return
 	}
 	if r.unexpected == 0 {
-		for _, k := range []string{"listing-json", "listing-default", "listing-custom", "head", "redirect", "next", "status-400", "status-501", "archive", "twin", "head-twin", "follow"} {
+		for _, k := range []string{"listing-json", "listing-default", "listing-custom", "head", "redirect", "next", "status-400", "status-501", "archive", "twin", "head-twin", "follow", "follow-up"} {
 			if r.agree[k] == 0 {
 				res.Infra = "vacuous: no case of kind '" + k + "' agreed with the model (fixture or parser broken?)"
 			}
